@@ -1,5 +1,7 @@
-SETUP = ("/venv/bin/python -c 'import hypothesis' 2>/dev/null || "
-         "/venv/bin/pip install --no-index --find-links /opt/veriftools/wheels hypothesis")
+SETUP = ("(/venv/bin/python -c 'import hypothesis' 2>/dev/null || "
+         "/venv/bin/pip install --no-index --find-links /opt/veriftools/wheels hypothesis) && "
+         "(PYTHONPATH=/verif/.deps /venv/bin/python -c 'import atheris' 2>/dev/null || "
+         "/venv/bin/pip install -q --no-index --find-links /opt/veriftools/wheels --target /verif/.deps atheris || true)")
 HOOKS = {
     "guard": "JTIOSUE_QUBOVERT_VERIF",
     "enable": "./check exports JTIOSUE_QUBOVERT_VERIF=1 (read once at import of qubovert._pubo) and imports an overlay copy of /repo/qubovert rebuilt under /verif/.build/ on every run; the hook records a degree-reduction certificate used by C01 (sub-check cert)",
@@ -11,7 +13,11 @@ ENGINES = [
     {"name": "hypothesis-sharded", "path": "/verif/vf/common.py",
      "serves_properties": [],
      "kind_free_text": "Hypothesis 6.168 strategies producing plain-data specs, run in 12-16 forked shards seeded from VERIF_SEED; pure run_case(spec) oracles against an independent reference evaluator (vf/ref.py); shrunk failures are written as replay JSON"},
+    {"name": "atheris-coverage-guided", "path": "/verif/vf/cgf.py",
+     "serves_properties": [],
+     "kind_free_text": "atheris 3.1 / libFuzzer campaign (thorough tier, or VERIF_CGF=1): the same Hypothesis strategies are driven through fuzz_one_input from mutated byte strings, the python byte code of qubovert (only) is instrumented for coverage feedback, the same run_case oracles judge every decoded case; 16 independent libFuzzer processes per property, failing spec saved as the same replay JSON. Not used for C12 (statistical oracle) and C17 (code under test runs in the sanitised worker process)"},
 ]
+CGF_OFF = ("C12", "C17")
 NOTES = ("All checks: ./check <ID> [--tier quick|thorough] [--replay FILE]. Exit 0 held / 1 VIOLATION / 2 harness error. "
          "Every run copies $VERIF_REPO/qubovert (default /repo) into /verif/.build/<ID>-plain and recompiles the C extension from the working tree.")
 NOT_YET = "check not built yet in this session (planned, see DESIGN.md section 4); not claimed until it is green on the unchanged tree and kills its mutants"
@@ -134,5 +140,3 @@ CHECKS["C19"] = {
     "note": "Trusted: gen.snapshot deep comparison (dict order not part of equality). Annealer calls kept tiny; plain build of the extension.",
     "technique": "property-based testing: Hypothesis-generated models, mutations and API calls with snapshot-equality (round-trip and non-interference) oracles",
 }
-for e in ENGINES:
-    e["serves_properties"] = sorted(CHECKS)
